@@ -92,9 +92,9 @@ def run(ctx):
     else:
         raise vlib.Infra("pre-fix model no longer yields the F1 candidate - spec changed?")
     # G: simulation
-    n = ctx.pick(60, 1200)
-    behs = sl.sim(ctx, "Subscription_sim.cfg", num=n, depth=14, tag="sim")[:ctx.pick(250, 2500)]
-    behs2 = sl.sim(ctx, "Subscription_simf.cfg", num=n, depth=14, tag="simf")[:ctx.pick(250, 2500)]
+    n = ctx.pick(60, 240)
+    behs = sl.sim(ctx, "Subscription_sim.cfg", num=n, depth=14, tag="sim")[:ctx.pick(250, 800)]
+    behs2 = sl.sim(ctx, "Subscription_simf.cfg", num=n, depth=14, tag="simf")[:ctx.pick(250, 800)]
     allb = cands + behs + behs2
     ctx.cov["evaluations"] = len(allb)
     ctx.sample(behs[0])
